@@ -21,11 +21,11 @@ FUNCTIONS = ["RDMol2StereoMolGraph.smg_from_rdmol (tag / label tables)", "_rd_te
              "_trigonal_bipyramidal_from_coords", "_octahedral_from_coords", "_planar_bond_from_coords", "StereoMolGraph.from_geometry"]
 BOUNDS = {"quick": "single centre of class Tet / SP / TBP / Oct with pairwise distinct monoatomic ligands: every placement for Tet/SP, strided for TBP/Oct; 6 bond insertion orders; "
                    "4 cube rotations x reflection; 3 noise patterns (eps 0.03 A); one double bond XYC=CZW: both isomers, all substituent placements; "
-                   "embedded_molecules: 40 organic molecules (C, H, N, O, S, halogens; 0-3 tetrahedral centres, 0-2 stereogenic double bonds, ring double bonds in 3..6-rings, "
-                   "aromatic ring, amide, sulfone, ammonium) x every stereoisomer RDKit enumerates (96 cases) x 3 ETKDG seeds x up to 3 atom renumberings, converter options "
+                   "embedded_molecules: 48 organic molecules (C, H, N, O, S, halogens; 0-3 tetrahedral centres, 0-2 stereogenic double bonds, ring double bonds in 3..6-rings, "
+                   "aromatic ring, amide, sulfone, ammonium) x every stereoisomer RDKit enumerates (about 110 cases) x 3 ETKDG seeds x up to 3 atom renumberings, converter options "
                    "stereo_complete=True, lone_pair_stereo=False, resonance=True (those of the repository's own consistency test)",
           "thorough": "all placements of TBP, 180 of Oct; 24 insertion orders; 6 noise patterns; embedded_molecules with 12 seeds x 6 renumberings"}
-OUTSIDE = ("organic molecules other than the 40 listed ones (96 stereoisomers), other embedding seeds; seeds for which neither the raw ETKDG conformer nor its force-field relaxed "
+OUTSIDE = ("organic molecules other than the 48 listed ones, other embedding seeds; seeds for which neither the raw ETKDG conformer nor its force-field relaxed "
            "version passes the independent admissibility oracle (bond / contact distances with margin, non-flat four-coordinate atoms, planar double-bond frames) are skipped: "
            "259 of 6912 in the thorough tier, all of them substituted cyclopropenes; "
            "all-real-coordinates version of the sign conventions (engine B) not built")
@@ -113,7 +113,9 @@ def dbond(sub_pl, ez, oi, rot, mirror, noise):
 FLAT = ["FC(Cl)Br", "CC(O)CC", "CC(N)C(=O)O", "FC=CCl", "CC=CC", "CC(F)C=CCl", "CC(F)C(Cl)C", "CC(F)C(Cl)C(Br)C", "C1=CC1", "C1=CCC1", "C1=CCCC1", "C1=CCCCC1",
         "CC1=CC1", "FC1=C(Cl)C1", "CC1CC=CC1", "OC1CCCC1F", "CC1CC1F", "FC1(Cl)CC1Br", "CC(=O)N", "c1ccccc1", "CC=O", "OC(=O)C=CC(=O)O", "CC(Cl)C#N", "FC=CC=CCl",
         "NC(CS)C(=O)O", "CN(C)C", "CNC=O", "C[N+](C)(C)C", "CS(C)(=O)=O", "ClC(Cl)=C(F)Br", "CC(O)C(F)=CC", "OC1C=CC(F)C1", "CC(Cl)C1=CC1", "FC(Cl)C(F)Cl",
-        "CC(Br)c1ccccc1", "OC(=O)C(O)C(O)C(=O)O", "CC=CC(C)=CC", "C1=CC=CC1", "CSC(C)N", "ClC=CC(F)C=CBr"]
+        "CC(Br)c1ccccc1", "OC(=O)C(O)C(O)C(=O)O", "CC=CC(C)=CC", "C1=CC=CC1", "CSC(C)N", "ClC=CC(F)C=CBr",
+        # round 3: ring double bonds whose substituent lies in another ring of the same size (two spellings), alkylidene three-rings
+        "C1CCC2=C(CCCC2)C1", "C1CCC2=C(C1)CCCC2", "C1(=CCCCC1)c1ccccc1", "C1(=CCCC1)C1CCCC1", "C=C1CC1", "CC=C1CC1", "FC=C1CC1", "C1CC2=C(C1)CCC2"]
 
 
 def _cases():
